@@ -61,6 +61,7 @@ def run(ctx):
                    "Machine.%s" % f, "")
 
     I = absint.Interp(p)
+    I.unroll = 8          # small fixed loops over the ports (e.g. `for port in 0..2`) are interpreted exactly
     # power-on values
     st0 = absint.State()
     m0 = I.run_body(p.need_body(RM + "::new"), [], st0, 0)
@@ -112,6 +113,24 @@ def run(ctx):
     # master reset
     analyse("master_reset", RM + "::master_reset", RM, {"cpu", "master"}, {"never"})
     analyse("Machine::master_reset", MACHINE + "::master_reset", MACHINE, {"cpu", "master"}, {"never"})
+
+    # the status register of the board mixes derived bits (fan, comparators) with the levels of physical inputs
+    # (jumpers J1/J2, UIO pins): the latter survive every reset and a load, bit by bit
+    PHYS = 0b1100_0111
+    for nm, path, ty in (("cpu_reset", RM + "::cpu_reset", RM), ("master_reset", RM + "::master_reset", RM),
+                         ("Machine::master_reset", MACHINE + "::master_reset", MACHINE)):
+        badbits = []
+        for pat in (0x00, 0xFF, 0x45, 0x82):
+            ovb = step.machine_overrides(p, None, None, None, stacksize_notset=True)
+            ovb["bus.board.dasr.bits"] = pat
+            stb, mab, _ = step.run_method(p, I, path, ovb, ty=ty)
+            after = step.field(p, I, stb, mab, ("raw." if ty == MACHINE else "") + "bus.board.dasr.bits", ty)
+            if not (isinstance(after, int) and not isinstance(after, bool) and (after & PHYS) == (pat & PHYS)):
+                badbits.append("%#04x -> %s" % (pat, D.short(after) if hasattr(D, "short") else after))
+        chk.ob("%s/physical-input-bits" % nm, not badbits,
+               "the jumper and UIO level bits of the board's status register (physical inputs) survive the reset",
+               p.need_body(path).loc(), "status register before -> after: %s" % badbits,
+               "constant propagation through the reset on four bit patterns")
 
     # load: master reset + RAM + limits
     prog = shapes.build(p, "L::compiler::ByteCode")
